@@ -18,6 +18,35 @@ def _many_sites(count, doc_lines=0):
     return doc + "".join(f"\n\ndef f{i}(x):\n    if x > {i}:\n        x += 1\n        x *= {i + 2}\n        print(x)\n        return x - {i}\n    return {i}\n" for i in range(count)) + "\n\nprint(" + ", ".join(f"f{i}({i + 1})" for i in range(count)) + ")\n"
 
 
+def _branch_pairs():
+    """Functions whose if has two branches that both end in a return, in every combination of: number of statements, nested ifs, statements after the return
+    (unreachable, kept inside an if), a call that is too long for one line. Whichever orientation the tool prefers, it must prefer it in both directions."""
+    long_call = "print(combine(first_argument_name, second_argument_name, third_argument_name, fourth_argument_name, 3))"
+    shapes = {
+        "short": ["return {k}"],
+        "four": ["print({k})", "print({k} + 1)", "print({k} + 2)", "return {k}"],
+        "four_long": ["print({k})", "print({k} + 1)", long_call, "return {k}"],
+        "tail": ["return {k}", "if y > 1:", "    print({k} + 4)"],
+        "tail_long": ["return {k}", "if y > 1:", "    print({k} + 4)", "    print({k} + 5)", "    " + long_call],
+        "nested": ["if y > 2:", "    print({k})", "    if y > 3:", "        print({k} + 1)", "return {k}"],
+        "nested_tail": ["if y > 2:", "    print({k})", "return {k}", "if y > 3:", "    print({k} + 1)", "if y > 4:", "    print({k} + 2)"],
+    }
+    out = []
+    for a in shapes:
+        for b in shapes:
+            body = ["        " + l.format(k=1) for l in shapes[a]]
+            rest = ["    " + l.format(k=2) for l in shapes[b]]
+            nested_rest = ["        " + l.format(k=2) for l in shapes[b]]
+            head = "def f(x, y, first_argument_name, second_argument_name, third_argument_name, fourth_argument_name):\n"
+            use = "\n\nprint(f(1, 2, 'a', 'b', 'c', 'd'))\n"  # (without safe mode an unused function is simply deleted)
+            out.append(head + "    if x:\n" + "\n".join(body) + "\n" + "\n".join(rest) + "\n" + use)
+            out.append(head + "    if y:\n        if x:\n" + "\n".join("    " + l for l in body) + "\n" + "\n".join(nested_rest) + "\n    return 3\n" + use)
+    return out
+
+
+BRANCH_PAIRS = _branch_pairs()
+HEAVY = [_many_sites(140)]  # more sites than 5 applications x 25 passes of a rule that handles one site per pass
+
 ANTAGONISTS = [
     _many_sites(14, 270),
     _many_sites(24),
@@ -121,6 +150,11 @@ def main() -> int:
     for i, t in enumerate(ANTAGONISTS):
         for o in (opts if thorough else [opts[i % len(opts)], {}]):
             cases.append({"id": f"antagonist{i}", "text": t, "options": o})
+    for i, t in enumerate(BRANCH_PAIRS):
+        for o in ([{"safe": True}, {}] if thorough else [[{"safe": True}, {}][(i // 2) % 2]]):
+            cases.append({"id": f"branch_pair{i}", "text": t, "options": o})
+    for i, t in enumerate(HEAVY):
+        cases.append({"id": f"heavy{i}", "text": t, "options": {"safe": True}})
     for k in range(120 if thorough else 30):
         a, b, c = r.sample(ANTAGONISTS, 3)
         cases.append({"id": f"mix{k}", "text": a + "\n\n" + b + "\n\n" + c, "options": r.choice(opts)})
